@@ -208,8 +208,13 @@ class _Time:
 
 
 class _Unpicklable:
+    """fails to pickle, with one of several error classes (picked by the job number)"""
+
+    def __init__(self, j=0):
+        self.j = j
+
     def __reduce__(self):
-        raise pickle.PicklingError('not today')
+        raise [pickle.PicklingError, ValueError, RuntimeError, TypeError][self.j % 4]('not today')
 
 
 _REAL = {}
@@ -256,7 +261,7 @@ class WorkerAdapter:
             if kind == 'baseexc':
                 raise TaskBase(j)
             if kind == 'unpicklable':
-                v = _Unpicklable()            # fails to pickle at nesting depth j % 4
+                v = _Unpicklable(j)           # fails to pickle at nesting depth j % 4
                 for lvl in range(j % 4):
                     v = {'k': [1, v]} if lvl % 2 else [v, 'x']
                 return v
